@@ -1,5 +1,6 @@
 //! C24: memory faults inside coroutines, interleaved with healthy coroutines on one thread.
-//! body: `prog ; prog ; … ; sched: c c c …`   prog steps (comma separated): S | R<r> | F<nw|nr|wr|ov>
+//! body: `prog ; prog ; … ; sched: c c c …`   prog steps (comma separated): S | R<r> | F<nw|nr|wr|ov> | G<nw|nr|wr>
+//!   G = the same wild access made while running on a segment added by maybe_grow
 //! out: first `bounds=<bits>` (stack_ptr_in_bounds at bottom-1,bottom,top-1,top,0,max of coroutine 0),
 //!      then per resume `Susp | Comp(r) | Err(msg) | Gone`, finally `alive`
 use crate::rng::Rng;
@@ -14,7 +15,7 @@ pub fn gen(r: &mut Rng, thorough: bool) -> String {
         let k = r.range(0, if thorough { 6 } else { 4 });
         let mut steps: Vec<String> = (0..k).map(|_| "S".to_string()).collect();
         steps.push(match r.below(7) {
-            0 => "Fnw".into(), 1 => "Fnr".into(), 2 => "Fwr".into(), 3 => "Fov".into(),
+            0 => (*r.pick(&["Fnw", "Gnw"])).into(), 1 => (*r.pick(&["Fnr", "Gnr"])).into(), 2 => (*r.pick(&["Fwr", "Gwr"])).into(), 3 => "Fov".into(),
             _ => format!("R{}", r.below(50)),
         });
         progs.push(steps.join(","));
@@ -40,6 +41,17 @@ fn run(steps: Vec<String>, s: &Suspender<(), ()>) -> usize {
             "Fnr" => unsafe { let v = std::ptr::read_volatile(8 as *const u8); std::hint::black_box(v); },
             "Fwr" => unsafe { let v = std::ptr::read_volatile(0x0000_dead_0000_0000usize as *const u8); std::hint::black_box(v); },
             "Fov" => { std::hint::black_box(recurse(0)); }
+            g if g.starts_with('G') => {
+                let kind = g[1..].to_string();
+                // a red zone larger than the whole stack forces a new segment
+                let _ = Coroutine::<(), (), usize>::maybe_grow_with(1 << 20, 256 * 1024, move || unsafe {
+                    match kind.as_str() {
+                        "nw" => std::ptr::write_volatile(1 as *mut u8, 1),
+                        "nr" => { let v = std::ptr::read_volatile(8 as *const u8); std::hint::black_box(v); }
+                        _ => { let v = std::ptr::read_volatile(0x0000_dead_0000_0000usize as *const u8); std::hint::black_box(v); }
+                    }
+                });
+            }
             r if r.starts_with('R') => return r[1..].parse().unwrap(),
             _ => {}
         }
